@@ -90,6 +90,8 @@ TX == [
   p10 |-> KV(R2("p9"), R2("x3")),                                      \* overwrites k2 (written at another offset by p9)
   x1 |-> [ins |-> {<<"g", 1>>}, outs |-> <<O("c", 6)>>, reads |-> R1("p1"), writes |-> R1("m1"), bad |-> "", big |-> FALSE],   \* transfer AND key write in one tx
   x2 |-> [ins |-> {<<"t1", 0>>}, outs |-> <<O("a", 4)>>, reads |-> R2(None), writes |-> R2("m2"), bad |-> "", big |-> FALSE], \* spends t1's output and creates k2
+  p12 |-> [ins |-> {}, outs |-> <<>>, reads |-> R1("p1"), writes |-> R1("v9"), bad |-> "", big |-> FALSE, alias |-> TRUE],   \* overwrites k1; ALSO
+        \* (first in its read / write lists) touches a key of another bucket whose bucket + key concatenation equals k1's
   p11 |-> [KV(NoKV, R1("z1")) EXCEPT !.bad = "blind"],                 \* writes k1 without declaring a read of it (xmodel verifyOutputs)
   w1 |-> TokBad({<<"g", 0>>}, <<O("c", 10)>>, "amount"),              \* cites 9 for g.0, which holds 10 (outputs = what it really holds)
   w2 |-> TokBad({<<"g", 1>>}, <<O("c", 7)>>, "sum"),                   \* outputs (7) exceed the input (g.1 holds 6): creates a token
